@@ -1,10 +1,10 @@
-(* C18 — IP whitelist admits exactly the configured addresses, also after reload.
+(* C18 — IP whitelist lets in exactly the configured addresses, also after reload.
    Only theorem statements; proofs in Proofs/AuthIpProofs.v. *)
 From RcProxy Require Import Base.Bytes Model.AuthIp Proofs.AuthIpProofs.
 Open Scope N_scope.
 
 (* after ANY history of successfully loaded file versions - additions, removals, enable, disable,
-   duplicates, in any order - an address is admitted iff the whitelist is disabled in the LAST
+   duplicates, in any order - an address is allowed iff the whitelist is disabled in the LAST
    version or the address is listed in the LAST version *)
 Theorem C18_reload : forall (vs : list (bool * list bytes)) v m ip,
   validate (fold_left parse_auth_ip (vs ++ [v]) m) ip = negb (fst v) || memb ip (snd v).
@@ -29,7 +29,7 @@ Theorem C18_reload_events : forall op,
 Proof. exact reload_on_write_create_rename. Qed.
 Print Assumptions C18_reload_events.
 
-(* the witnesses of the two repaired defects: {A,B} then {A} no longer admits B; a Create event
+(* the witnesses of the two repaired defects: {A,B} then {A} no longer lets in B; a Create event
    (rename-over) reloads *)
 Example C18_witnesses :
   let m := fold_left parse_auth_ip [(true, [bs "10.0.0.1"; bs "10.0.0.2"]); (true, [bs "10.0.0.1"])] ipmap0 in
